@@ -36,7 +36,6 @@ def get_cfgtp5_dict(**kwargs) -> dict:
         lp = len(kwargs["payload"])
     elif "tpIdx" in kwargs:
         lp = 1
-    print(f"DEBUG TP5 dict {kwargs} len payload {lp}")
     if lp == 1:
         return UBX_PAYLOADS_POLL["CFG-TP5-TPX"]
     return UBX_PAYLOADS_POLL["CFG-TP5"]  # pragma: no cover
